@@ -107,6 +107,37 @@ class LazyDriver:
         self.eager = self.make(st['attrs']) if self.use_eager else None
         if self.use_eager:
             self.check_eager(st, 'construction')
+            if self.target == 'tracer':
+                self.check_caller_arrays(st)
+
+    def check_caller_arrays(self, st):
+        """derived quantities equal those of a fresh object with the *current* defining attributes also after the caller changes the
+        arrays it passed to the constructor (whether or not the tracer kept them)"""
+        attrs = st['attrs']
+        src = np.array(decode(self.kind, 'from_point', attrs['from_point']), dtype=np.float64)
+        dst = np.array(decode(self.kind, 'to_point', attrs['to_point']), dtype=np.float64)
+        kw = {'dz': decode(self.kind, 'dz', attrs['dz'])} if self.kind in ('specialized', 'basic') else {}
+        ice = decode(self.kind, 'ice', attrs['ice'])
+        tr = CLASSES[self.kind](src, dst, ice, **kw)
+        for group in ('scalars', 'solutions'):
+            try:
+                tracer_obs(tr, group)                  # fill the caches
+            except Exception:
+                return
+        src += DELTA
+        dst -= DELTA
+        fresh = CLASSES[self.kind](np.array(tr.from_point, dtype=float), np.array(tr.to_point, dtype=float), ice, **kw)
+        for group in ('scalars', 'solutions'):
+            res = []
+            for o in (tr, fresh):
+                try:
+                    res.append((tracer_obs(o, group), None))
+                except Exception as ex:
+                    res.append((None, type(ex).__name__))
+            (got, gex), (want, wex) = res
+            if gex != wex or (got is not None and (len(got) != len(want) or not np.allclose(got, want, rtol=1e-9, atol=1e-12, equal_nan=True))):
+                raise Divergence('%s tracer (%s group) after the caller changed the coordinate arrays it had passed to the constructor, vs a fresh '
+                                 'tracer with the end points the tracer now reports' % (self.kind, group), wex or want, gex or got)
 
     def apply(self, obj, last):
         if last['op'] == 'Assign':
